@@ -158,7 +158,7 @@ func rowsSig(col proto.Column) string {
 
 // C15 — the pure-Go build and the default build of the codecs behave identically.
 func C15(c *vk.Ctx) {
-	c.Rule("each of the 35 column codecs that exist in two build variants (33 generated + Bool + UUID) x inputs {all 256 values for 1-byte elements, all 65536 values for 2-byte elements, for wider elements 1..5 rows of the patterns zero / all-ones / counter / high bit / low byte and a 7-row filler, 0 rows, and 65535 / 65536 / 65537 rows and one row more than 1 MiB of column data for every codec} x target {fresh, reset after use} x DecodeColumn of the whole input and of EVERY truncation of it (inputs of more than 64 bytes: the first and last 16 cuts and the cuts at and next to multiples of 4096, 65536 and every multiple of 1 MiB) x the same column read twice in a row from one reader (plain; as two LZ4 frames; as two None frames; as one column spread over two ZSTD frames followed by a third frame) x EncodeColumn into an empty buffer and into buffers pre-filled with 1..9 bytes x WriteColumn+Flush (after buffered bytes; on a writer whose buffer started non-empty, twice with a buffered byte in between). Each build checks encode(decode(x)) = x and prefix preservation itself; the driver then compares the two builds' transcripts (decoded row values, produced bytes, error classes) line by line. Bool is fed only the bytes both builds accept (0/1); other bytes are decoded in each build only to show that nothing panics. distinct_nontrivial = transcript lines.")
+	c.Rule("each of the 35 column codecs that exist in two build variants (33 generated + Bool + UUID) x inputs {all 256 values for 1-byte elements, all 65536 values for 2-byte elements, for wider elements 1..5 rows of the patterns zero / all-ones / counter / high bit / low byte and a 7-row filler, 0 rows, and 65535 / 65536 / 65537 rows and one row more than 1 MiB of column data for every codec} x target {fresh, reset after use} x DecodeColumn of the whole input and of EVERY truncation of it (inputs of more than 64 bytes: the first and last 16 cuts and the cuts at and next to multiples of 4096, 65536 and every multiple of 1 MiB) x the same column read twice in a row from one reader (plain; as two LZ4 frames; as two None frames; as one column spread over two ZSTD frames followed by a third frame) x EncodeColumn into an empty buffer and into buffers pre-filled with 1..9 bytes x WriteColumn+Flush (after buffered bytes; on a writer whose buffer started non-empty, the column and a second column of other values with a buffered byte in between). Each build checks encode(decode(x)) = x and prefix preservation itself; the driver then compares the two builds' transcripts (decoded row values, produced bytes, error classes) line by line. Bool is fed only the bytes both builds accept (0/1); other bytes are decoded in each build only to show that nothing panics. distinct_nontrivial = transcript lines.")
 	for ci, cd := range codecs15() {
 		if c.Only == "" && !c.Mine(int64(ci)) {
 			continue
@@ -209,10 +209,23 @@ func C15(c *vk.Ctx) {
 						// already holds bytes, and the column written twice with buffered bytes in between
 						sink2 := &sink14{failAt: -1}
 						w2 := proto.NewWriter(sink2, &proto.Buffer{Buf: []byte{7, 8}})
+						// the second column written before the flush holds OTHER values (the input rotated
+						// by one element): a scratch buffer shared between pending writes shows up
+						in2 := in
+						col2 := col
+						if wd := cd.width; wd > 0 && len(in) >= 2*wd {
+							in2 = append(append([]byte{}, in[wd:]...), in[:wd]...)
+							c2 := cd.mk()
+							if err := c2.DecodeColumn(proto.NewReader(bytes.NewReader(in2)), rows); err == nil {
+								col2 = c2
+							} else {
+								in2 = in
+							}
+						}
 						col.WriteColumn(w2)
 						w2.ChainBuffer(func(b *proto.Buffer) { b.PutRaw([]byte{6}) })
-						col.WriteColumn(w2)
-						want2 := append(append(append([]byte{7, 8}, in...), 6), in...)
+						col2.WriteColumn(w2)
+						want2 := append(append(append([]byte{7, 8}, in...), 6), in2...)
 						if _, err := w2.Flush(); err != nil || !bytes.Equal(sink2.got, want2) {
 							c.Violation("C15/write-column-prefilled/"+cd.name, id, fmt.Sprintf("WriteColumn, one buffered byte, WriteColumn, Flush on a writer whose buffer started with 2 bytes gives %s, want %s", vk.Hex(sink2.got), vk.Hex(want2)), nil)
 						}
